@@ -165,7 +165,7 @@ theorem linInv_solve (s : McBox Rat) (hf : FullInv s) (L : Nat → Nat → Rat) 
     H maxIter { s := s, iter := 0, shrinkCounter := 0, stop := .running } hf h
   intro fuel
   induction fuel with
-  | zero => intro st _ hl; exact hl
+  | zero => intro st _ hl; exact linInv_unshrink st.s L hl
   | succ fuel ih =>
     intro st hf' hl
     have hb := solveBody_spec eps st hf'
